@@ -31,6 +31,8 @@ vars == <<l, g, viol>>
 
 Range(s) == {s[i] : i \in DOMAIN s}
 Has(r, f) == f \in DOMAIN r
+Get(f, k, d) == IF k \in DOMAIN f THEN f[k] ELSE d
+Put(f, k, v) == [x \in DOMAIN f \cup {k} |-> IF x = k THEN v ELSE f[x]]
 
 (* ---------- ghost state ---------- *)
 G0 == [ sc      |-> "none",
@@ -44,16 +46,22 @@ G0 == [ sc      |-> "none",
         cfacts  |-> <<>>,      \* client -> facts in its view
         cpend   |-> <<>>,      \* client -> accepted but uncommitted facts
         csnap   |-> <<>>,      \* client -> facts at BEGIN
+        csnaprows |-> <<>>,    \* client -> rows it showed last before BEGIN
         ctx     |-> <<>>,      \* client -> in explicit transaction
         cmode   |-> <<>>,      \* client -> "rw" | "ro" | "hist"
+        cver    |-> <<>>,      \* client -> its current version set
         fresh   |-> <<>>,      \* client -> versions PUT by it during the current API call
+        txputs  |-> <<>>,      \* client -> version PUTs since BEGIN
+        txkeys  |-> <<>>,      \* client -> keys written since BEGIN
         obs     |-> {},        \* observations <<facts, rows>> of completed opens (C01)
         lastrows|-> <<>>,      \* client -> last rows it showed
-        quiet   |-> 0          \* number of consecutive read-write opens that wrote nothing
+        lastdump|-> <<>>,      \* client -> last register dump (entries)
+        laststmt|-> <<>>,      \* client -> last accepted statement
+        taken   |-> <<>>,      \* version set -> rows visible when s3db_version() returned it (C11)
+        attr    |-> <<>>,      \* client -> [deadline, write_time] expected from s3db_conn
+        cfail   |-> {},        \* clients whose last COMMIT failed (SQLite rolled the transaction back)
+        fault   |-> {}         \* clients with an active fault / crash plan
       ]
-
-Get(f, k, d) == IF k \in DOMAIN f THEN f[k] ELSE d
-Put(f, k, v) == [x \in DOMAIN f \cup {k} |-> IF x = k THEN v ELSE f[x]]
 
 (* ---------- decoding events ---------- *)
 RowSet(rows) == { <<rows[i][1], [c \in Cols |-> rows[i][1 + ColIdx(c)]]>> : i \in DOMAIN rows }
@@ -67,17 +75,43 @@ StmtOf(e) ==
 Accepted(e) == e.outcome = "ok" /\ e.affected >= 1 /\ e.kind \in {"ins", "upd", "del"}
 
 FactsOfVersions(V) == UNION {Get(g.vfacts, v, {}) : v \in V}
+Ideal(F) == R!IdealTable(F)
+
+(* visible rows of a register dump *)
+ColOf(ent, c) == LET M == {i \in DOMAIN ent.cols : ent.cols[i][1] = c} IN
+                 IF M = {} THEN R!NullV ELSE ent.cols[CHOOSE i \in M : TRUE][3]
+DumpRows(entries) == { <<entries[i].key, [c \in Cols |-> ColOf(entries[i], c)]>> :
+                         i \in {j \in DOMAIN entries : entries[j].live /\ ~entries[j].tomb} }
+(* the part of a dump that must survive encode / store / load / decode *)
+Canon(entries) == [i \in DOMAIN entries |->
+                     [key |-> entries[i].key, modns |-> entries[i].modns, tomb |-> entries[i].tomb,
+                      live |-> entries[i].live, st |-> entries[i].st, cols |-> entries[i].cols, prev |-> entries[i].prev]]
 
 (* ---------- violations ---------- *)
 V(prop, pred, e, detail) ==
   IF prop \in Props THEN {[sc |-> g.sc, prop |-> prop, pred |-> pred, seq |-> e.seq, detail |-> detail]} ELSE {}
+(* a predicate that several properties share *)
+VAll(ps, suffix, e, detail) == UNION {V(p, p \o suffix, e, detail) : p \in ps}
 
-(* ---------- event handlers: each yields the next ghost state and the set of new violations ---------- *)
+IdealProps == {"C02", "C04", "C05", "C08", "C09", "C10", "C11", "C13", "C15", "C16"}
+NoFault(c) == c \notin g.fault
+
+CheckRows(e, c, facts, rows, where) ==
+  LET ideal == Ideal(facts) IN
+  IF rows # ideal
+  THEN VAll(IdealProps, "_RowsAreIdeal", e, [where |-> where, observed |-> rows, ideal |-> ideal, facts |-> facts])
+  ELSE {}
+
+PastDeadline(c) == Get(g.attr, c, [deadline |-> -1, write_time |-> -1]).deadline = -999
+Unexpected(e, what) ==
+  IF Has(e, "c") /\ (~NoFault(e.c) \/ PastDeadline(e.c)) THEN {}
+  ELSE VAll(Props, "_UnexpectedFailure", e, [what |-> what, outcome |-> e.outcome, err |-> e.err])
+
+(* ---------- event handlers: each yields the next ghost state and the new violations ---------- *)
 
 OnReset(e) ==
   [g2 |-> [G0 EXCEPT !.sc = e.sc, !.feats = Range(e.features)], v |-> {}]
 
-(* a storage request *)
 OnS3(e) ==
   LET c == e.c
       g1 == IF e.op = "PUT" /\ e.res = "ok" /\ e.cls = "cur"
@@ -85,6 +119,7 @@ OnS3(e) ==
                            !.vpar = Put(@, e.name, Range(e.parents)),
                            !.vcre = Put(@, e.name, e.created),
                            !.vby  = Put(@, e.name, c),
+                           !.txputs = Put(@, c, Get(@, c, 0) + 1),
                            !.fresh = Put(@, c, Get(@, c, <<>>) \o <<e.name>>)]
             ELSE IF e.op = "PUT" /\ e.res = "ok" /\ e.cls = "mrg"
             THEN [g EXCEPT !.mrg = @ \cup {e.name}]
@@ -96,7 +131,7 @@ OnS3(e) ==
       ro == Get(g.cmode, c, "rw") \in {"ro", "hist"}
   IN [g2 |-> g1,
       v  |-> IF ro /\ e.op \in {"PUT", "DELETE"}
-             THEN V("C13", "C13_NoMutation", e, <<e.op, e.cls, e.name>>) ELSE {}]
+             THEN V("C13", "C13_NoMutation", e, <<e.op, e.cls, e.name, e.res>>) ELSE {}]
 
 (* the versions client c PUT during the API call that just returned get    *)
 (* their facts: parents' facts plus what c had accepted and not committed  *)
@@ -109,12 +144,6 @@ Finalize(gg, c, pend) ==
                 !.fresh = Put(@, c, <<>>),
                 !.cpend = Put(@, c, IF Len(fr) > 0 THEN {} ELSE pend)]
 
-CheckRows(e, c, facts, rows, where) ==
-  LET ideal == R!IdealTable(facts) IN
-  (IF rows # ideal
-   THEN V("C02", "C02_RowsAreIdeal", e, [where |-> where, observed |-> rows, ideal |-> ideal, facts |-> facts])
-   ELSE {})
-
 OnOpenStart(e) ==
   [g2 |-> [g EXCEPT !.fresh = Put(@, e.c, <<>>),
                     !.cmode = IF e.mode = "refresh" THEN @ ELSE Put(@, e.c, e.mode)],
@@ -123,7 +152,9 @@ OnOpenStart(e) ==
 OnOpenDone(e) ==
   LET c == e.c IN
   IF e.outcome # "ok"
-  THEN [g2 |-> g, v |-> {}]
+  THEN [g2 |-> g, v |-> Unexpected(e, "open")]
+  ELSE IF PastDeadline(c) /\ e.dr > 0
+  THEN [g2 |-> g, v |-> V("C15", "C15_DeadlineApplies", e, [requests |-> e.dr])]
   ELSE
   LET g1 == Finalize(g, c, {})
       vers == Range(e.version)
@@ -133,56 +164,200 @@ OnOpenDone(e) ==
       g2 == [g1 EXCEPT !.cfacts = Put(@, c, facts),
                        !.cpend = Put(@, c, {}),
                        !.ctx = Put(@, c, FALSE),
+                       !.cver = Put(@, c, vers),
                        !.obs = @ \cup {<<facts, rows>>},
-                       !.lastrows = Put(@, c, rows),
-                       !.quiet = IF e.mode = "rw" THEN (IF wrote THEN 0 ELSE @ + 1) ELSE @]
-      v1 == IF e.rows_outcome = "ok" THEN CheckRows(e, c, facts, rows, "open") ELSE
-            V("C02", "C02_ReadFails", e, e.rows_outcome)
+                       !.lastrows = Put(@, c, rows)]
+      v1 == IF e.rows_outcome = "ok" THEN CheckRows(e, c, facts, rows, "open")
+            ELSE Unexpected([e EXCEPT !.outcome = e.rows_outcome, !.err = e.rows_err], "read after open")
       v2 == IF \E o \in g.obs : o[1] = facts /\ o[2] # rows
             THEN V("C01", "C01_SameFactsSameRows", e,
                    [observed |-> rows, other |-> (CHOOSE o \in g.obs : o[1] = facts /\ o[2] # rows)[2], facts |-> facts])
             ELSE {}
-      \* fixpoint: the scenario marks the read-write opens of a quiescent bucket with fix = n
-      \* (n-th consecutive one); from the third on, an open must not write.
+      \* fixpoint: the scenario numbers the consecutive read-write opens of a quiescent bucket
+      \* (fix = n); from the third on, an open must not write.
       v3 == IF Has(e, "fix") /\ e.fix >= 3 /\ wrote
             THEN V("C01", "C01_Fixpoint", e, [fix |-> e.fix, mutations |-> e.dm]) ELSE {}
-  IN [g2 |-> g2, v |-> v1 \cup v2 \cup v3]
+      \* a refresh that finds nothing new leaves s3db_version() unchanged
+      v4 == IF Has(e, "refresh") /\ g.cur = Get(g.cver, c, {}) /\ vers # Get(g.cver, c, {})
+            THEN V("C11", "C11_StableOnNoop", e, [before |-> Get(g.cver, c, {}), after |-> vers]) ELSE {}
+      v5 == IF Has(e, "same") /\ e.rows_outcome = "ok" /\ rows # Get(g.lastrows, c, {})
+            THEN V(e.same, e.same \o "_RowsUnchanged", e, [before |-> Get(g.lastrows, c, {}), after |-> rows]) ELSE {}
+  IN [g2 |-> g2, v |-> v1 \cup v2 \cup v3 \cup v4 \cup v5]
 
 OnStmt(e) ==
   LET c == e.c
       acc == Accepted(e)
       f == StmtOf(e)
+      before == Get(g.cfacts, c, {})
+      after == before \cup (IF acc THEN {f} ELSE {})
       pend == Get(g.cpend, c, {}) \cup (IF acc THEN {f} ELSE {})
-      g0 == [g EXCEPT !.cfacts = Put(@, c, Get(@, c, {}) \cup (IF acc THEN {f} ELSE {}))]
+      a0 == Get(g.attr, c, [deadline |-> -1, write_time |-> -1])
+      g0 == [g EXCEPT !.cfacts = Put(@, c, after),
+                      \* unless told to keep it, the harness sets write_time to the statement's wt first
+                      !.attr = IF Has(e, "keep_wt") THEN @ ELSE Put(@, c, [a0 EXCEPT !.write_time = e.wt]),
+                      !.laststmt = IF acc THEN Put(@, c, f) ELSE @,
+                      !.txkeys = IF acc THEN Put(@, c, Get(@, c, {}) \cup {e.key}) ELSE @]
       g1 == IF e.intx = 1 THEN [g0 EXCEPT !.cpend = Put(@, c, pend)] ELSE Finalize(g0, c, pend)
+      g2 == IF e.intx = 0 /\ Has(e, "version") THEN [g1 EXCEPT !.cver = Put(@, c, Range(e.version))] ELSE g1
       ro == Get(g.cmode, c, "rw") \in {"ro", "hist"}
+      prevver == Get(g.cver, c, {})
       v1 == IF ro /\ e.outcome = "ok" /\ e.affected >= 1
             THEN V("C13", "C13_WriteFails", e, [kind |-> e.kind, outcome |-> e.outcome]) ELSE {}
-  IN [g2 |-> g1, v |-> v1]
+      v2 == IF e.outcome = "ok" /\ e.affected = 0 /\ e.intx = 0 /\ e.dm > 0
+            THEN V("C16", "C16_NoopCommitNoPut", e, [mutations |-> e.dm]) ELSE {}
+      v3 == IF e.outcome = "ok" /\ e.affected = 0 /\ e.intx = 0 /\ Has(e, "version") /\ Range(e.version) # prevver
+            THEN V("C11", "C11_StableOnNoop", e, [before |-> prevver, after |-> Range(e.version)]) ELSE {}
+      v4 == IF acc /\ e.intx = 0 /\ ~ro /\ Has(e, "version") /\ Ideal(before) # Ideal(after) /\ Range(e.version) = prevver
+            THEN V("C11", "C11_ChangesOnChange", e, [version |-> prevver]) ELSE {}
+      v5 == IF e.intx = 1 /\ e.dm > 0
+            THEN V("C05", "C05_NothingLeaksEarly", e, [mutations |-> e.dm]) ELSE {}
+      v6 == IF e.outcome = "error" /\ ~ro THEN Unexpected(e, "statement") ELSE {}
+      v7 == IF PastDeadline(c) /\ e.outcome = "ok" /\ e.dm > 0
+            THEN V("C15", "C15_DeadlineApplies", e, [mutations |-> e.dm]) ELSE {}
+  IN [g2 |-> g2, v |-> v1 \cup v2 \cup v3 \cup v4 \cup v5 \cup v6 \cup v7]
 
 OnRows(e) ==
   LET c == e.c
       rows == RowSet(e.rows)
       g1 == [g EXCEPT !.lastrows = Put(@, c, rows)]
-  IN IF e.outcome # "ok" THEN [g2 |-> g, v |-> V("C02", "C02_ReadFails", e, e.outcome)]
-     ELSE [g2 |-> g1, v |-> CheckRows(e, c, Get(g.cfacts, c, {}), rows, "rows")]
+  IN IF e.outcome # "ok" THEN [g2 |-> g, v |-> Unexpected(e, "read")]
+     ELSE [g2 |-> g1,
+           v |-> CheckRows(e, c, Get(g.cfacts, c, {}), rows, "rows")
+                 \cup (IF Has(e, "same") /\ rows # Get(g.lastrows, c, {})
+                       THEN V(e.same, e.same \o "_RowsUnchanged", e, [before |-> Get(g.lastrows, c, {}), after |-> rows]) ELSE {})
+                 \* same_as_begin = 1: after ROLLBACK; = 2: after a COMMIT, if that COMMIT failed
+                 \cup (IF Has(e, "same_as_begin") /\ (e.same_as_begin = 1 \/ c \in g.cfail) /\ rows # Get(g.csnaprows, c, {})
+                       THEN V("C05", "C05_RollbackRestores", e, [before |-> Get(g.csnaprows, c, {}), after |-> rows]) ELSE {})]
 
 OnBegin(e) ==
   LET c == e.c IN
-  [g2 |-> IF e.outcome = "ok" THEN [g EXCEPT !.ctx = Put(@, c, TRUE), !.csnap = Put(@, c, Get(g.cfacts, c, {}))] ELSE g,
-   v |-> {}]
+  [g2 |-> IF e.outcome = "ok"
+          THEN [g EXCEPT !.ctx = Put(@, c, TRUE), !.csnap = Put(@, c, Get(g.cfacts, c, {})),
+                         !.csnaprows = Put(@, c, Get(g.lastrows, c, {})),
+                         !.txputs = Put(@, c, 0), !.txkeys = Put(@, c, {})]
+          ELSE g,
+   v |-> IF e.outcome # "ok" THEN Unexpected(e, "begin") ELSE {}]
 
 OnCommit(e) ==
   LET c == e.c
-      g1 == IF e.outcome = "ok" THEN Finalize([g EXCEPT !.ctx = Put(@, c, FALSE)], c, Get(g.cpend, c, {})) ELSE g
-  IN [g2 |-> g1, v |-> {}]
+      \* a failed COMMIT is rolled back by SQLite (xRollback): the view returns to the BEGIN snapshot
+      g1 == IF e.outcome = "ok" THEN Finalize([g EXCEPT !.ctx = Put(@, c, FALSE), !.cfail = @ \ {c}], c, Get(g.cpend, c, {}))
+            ELSE [g EXCEPT !.ctx = Put(@, c, FALSE), !.cfacts = Put(@, c, Get(g.csnap, c, {})), !.cpend = Put(@, c, {}),
+                           !.fresh = Put(@, c, <<>>), !.cfail = @ \cup {c}]
+      g2 == IF e.outcome = "ok" /\ Has(e, "version") THEN [g1 EXCEPT !.cver = Put(@, c, Range(e.version))] ELSE g1
+      v1 == IF e.outcome = "ok" /\ Get(g.txputs, c, 0) > 1
+            THEN V("C05", "C05_CommitIsOneVersion", e, [versions |-> Get(g.txputs, c, 0)]) ELSE {}
+      v2 == IF e.outcome = "ok" /\ Get(g.cpend, c, {}) = {} /\ e.dm > 0
+            THEN V("C16", "C16_NoopCommitNoPut", e, [mutations |-> e.dm]) ELSE {}
+      v3 == IF e.outcome # "ok" THEN Unexpected(e, "commit") ELSE {}
+  IN [g2 |-> g2, v |-> v1 \cup v2 \cup v3]
 
 OnRollback(e) ==
   LET c == e.c
       g1 == IF e.outcome = "ok"
             THEN [g EXCEPT !.ctx = Put(@, c, FALSE), !.cfacts = Put(@, c, Get(g.csnap, c, {})), !.cpend = Put(@, c, {})]
             ELSE g
-  IN [g2 |-> g1, v |-> {}]
+      v1 == IF Get(g.txputs, c, 0) > 0 \/ e.dm > 0
+            THEN V("C05", "C05_RollbackLeavesBucket", e, [versions |-> Get(g.txputs, c, 0), mutations |-> e.dm]) ELSE {}
+  IN [g2 |-> g1, v |-> v1 \cup (IF e.outcome # "ok" THEN Unexpected(e, "rollback") ELSE {})]
+
+OnVersion(e) ==
+  LET c == e.c
+      names == Range(e.names)
+  IN IF e.outcome # "ok" THEN [g2 |-> g, v |-> Unexpected(e, "s3db_version")]
+     ELSE IF ~Has(e, "save") THEN [g2 |-> [g EXCEPT !.cver = Put(@, c, names)], v |-> {}]
+     ELSE
+     LET rows == RowSet(e.rows)
+         known == names \in DOMAIN g.taken
+         g1 == [g EXCEPT !.cver = Put(@, c, names),
+                         !.taken = IF known THEN @ ELSE Put(@, names, rows)]
+         v1 == IF known /\ g.taken[names] # rows
+               THEN V("C11", "C11_SameRowsLater", e, [version |-> names, then |-> g.taken[names], now |-> rows]) ELSE {}
+         \* the named versions explain the rows: rows = Ideal(facts of those versions)
+         v2 == IF ~Get(g.ctx, c, FALSE) /\ rows # Ideal(FactsOfVersions(names))
+               THEN V("C11", "C11_ListsMerged", e, [version |-> names, rows |-> rows, ideal |-> Ideal(FactsOfVersions(names))]) ELSE {}
+     IN [g2 |-> g1, v |-> v1 \cup v2]
+
+OnChanges(e) ==
+  LET c == e.c
+      F == Range(e.from)
+      T == Range(e.to)
+      A == Ideal(FactsOfVersions(F))
+      B == IF e.has_to THEN Ideal(FactsOfVersions(T)) ELSE Ideal(FactsOfVersions(g.cur))
+      Rs == RowSet(e.rows)
+  IN IF e.outcome # "ok"
+     THEN [g2 |-> g, v |-> IF NoFault(c) THEN V("C12", "C12_NoFailure", e, [from |-> F, to |-> T, err |-> e.err]) \cup Unexpected(e, "s3db_changes") ELSE {}]
+     ELSE [g2 |-> g,
+           v |-> (IF ~(Rs \subseteq B) THEN V("C12", "C12_Sound", e, [from |-> F, to |-> T, extra |-> Rs \ B, result |-> Rs]) ELSE {})
+                 \cup (IF ~((B \ A) \subseteq Rs) THEN V("C12", "C12_Complete", e, [from |-> F, to |-> T, missing |-> (B \ A) \ Rs, result |-> Rs]) ELSE {})
+                 \cup (IF F = {} /\ e.has_to /\ T \in DOMAIN g.taken /\ Rs # g.taken[T]
+                       THEN V("C11", "C11_SameRowsLater", e, [version |-> T, then |-> g.taken[T], now |-> Rs, via |-> "s3db_changes"]) ELSE {})]
+
+OnDump(e) ==
+  LET c == e.c
+      g1 == [g EXCEPT !.lastdump = Put(@, c, e)]
+      hasLs == c \in DOMAIN g.laststmt
+      ls == IF hasLs THEN g.laststmt[c] ELSE [kind |-> "del"]
+      ents == {e.entries[i] : i \in DOMAIN e.entries}
+      v1 == IF Has(e, "tag") /\ e.tag = "stamp" /\ hasLs
+            THEN IF ls.kind = "del" THEN {} ELSE
+                 LET M == {x \in ents : x.key = ls.key} IN
+                 IF M = {} \/ \E x \in M : \E cc \in DOMAIN ls.cols :
+                        ~(\E i \in DOMAIN x.cols : x.cols[i][1] = cc /\ x.cols[i][2] = ls.wt /\ x.cols[i][3] = ls.cols[cc])
+                 THEN V("C15", "C15_StampedWithWriteTime", e, [stmt |-> ls, entry |-> M]) ELSE {}
+            ELSE {}
+      v2 == IF Has(e, "tag") /\ e.tag = "txdump"
+            THEN LET K == Get(g.txkeys, c, {})
+                     TS == {x.modns : x \in {y \in ents : y.key \in K}} IN
+                 IF Cardinality(TS) > 1 THEN V("C05", "C05_OneWriteTime", e, [times |-> TS]) ELSE {}
+            ELSE {}
+  IN IF e.outcome # "ok" THEN [g2 |-> g, v |-> Unexpected(e, "dump")] ELSE [g2 |-> g1, v |-> v1 \cup v2]
+
+OnKVDump(e) ==
+  LET c == e.c IN
+  IF e.outcome # "ok" THEN [g2 |-> g, v |-> Unexpected(e, "open of named versions")]
+  ELSE
+  LET only == Range(e.only)
+      rows == DumpRows(e.entries)
+      v1 == IF e.has_only /\ only \in DOMAIN g.taken /\ g.taken[only] # rows
+            THEN V("C11", "C11_SameRowsLater", e, [version |-> only, then |-> g.taken[only], now |-> rows, via |-> "open"]) ELSE {}
+      \* compare with the dump of the writer named by `tag` (same version): decoding gives back what was encoded
+      w == IF Has(e, "tag") THEN e.tag ELSE "-"
+      wd == IF w \in DOMAIN g.lastdump THEN g.lastdump[w] ELSE e
+      v2 == IF w \notin DOMAIN g.lastdump THEN {} ELSE
+            IF Canon(wd.entries) # Canon(e.entries) \/ wd.size # e.size \/ wd.height # e.height
+            THEN V("C16", "C16_DecodesToSame", e, [writer |-> [entries |-> Canon(wd.entries), size |-> wd.size, height |-> wd.height],
+                                                    reader |-> [entries |-> Canon(e.entries), size |-> e.size, height |-> e.height]]) ELSE {}
+      v3 == IF e.has_only THEN CheckRows(e, c, FactsOfVersions(only), rows, "open of named versions") ELSE {}
+  IN [g2 |-> g, v |-> v1 \cup v2 \cup v3]
+
+OnReach(e) ==
+  LET bad == {e.versions[i] : i \in {j \in DOMAIN e.versions : Len(e.versions[j].missing) > 0 \/ Len(e.versions[j].undecodable) > 0}}
+  IN [g2 |-> g,
+      v |-> IF bad # {} THEN VAll({"C16", "C09", "C04"}, "_AllReachableExist", e, bad) ELSE {}]
+
+OnBucket(e) ==
+  [g2 |-> g,
+   v |-> IF Len(e.rewritten) > 0 THEN V("C16", "C16_NeverRewrittenDifferently", e, e.rewritten) ELSE {}]
+
+OnConnSet(e) ==
+  LET c == e.c
+      a0 == Get(g.attr, c, [deadline |-> -1, write_time |-> -1])
+      a1 == IF e.outcome = "ok" THEN [a0 EXCEPT ![e.attr] = e.t] ELSE a0
+  IN [g2 |-> [g EXCEPT !.attr = Put(@, c, a1)], v |-> {}]
+
+OnConnGet(e) ==
+  LET c == e.c
+      a == Get(g.attr, c, [deadline |-> -1, write_time |-> -1])
+  IN [g2 |-> g,
+      v |-> IF e.outcome # "ok" \/ e.deadline # a.deadline \/ e.write_time # a.write_time
+            THEN V("C15", "C15_ReadBack", e, [expected |-> a, deadline |-> e.deadline, write_time |-> e.write_time]) ELSE {}]
+
+OnPlan(e) == [g2 |-> [g EXCEPT !.fault = @ \cup {e.c}], v |-> {}]
+OnHeal(e) == [g2 |-> [g EXCEPT !.fault = @ \ {e.c}], v |-> {}]
+
+OnPanic(e) ==
+  [g2 |-> g, v |-> VAll(Props, "_NoPanicNoHang", e, [what |-> e.ev, op |-> e.op, msg |-> IF Has(e, "msg") THEN e.msg ELSE "-"])]
 
 Handle(e) ==
   CASE e.ev = "reset"      -> OnReset(e)
@@ -194,6 +369,17 @@ Handle(e) ==
     [] e.ev = "begin"      -> OnBegin(e)
     [] e.ev = "commit"     -> OnCommit(e)
     [] e.ev = "rollback"   -> OnRollback(e)
+    [] e.ev = "version"    -> OnVersion(e)
+    [] e.ev = "changes"    -> OnChanges(e)
+    [] e.ev = "dump"       -> OnDump(e)
+    [] e.ev = "kvdump"     -> OnKVDump(e)
+    [] e.ev = "reach"      -> OnReach(e)
+    [] e.ev = "bucket"     -> OnBucket(e)
+    [] e.ev = "conn_set"   -> OnConnSet(e)
+    [] e.ev = "conn_get"   -> OnConnGet(e)
+    [] e.ev = "plan"       -> OnPlan(e)
+    [] e.ev = "heal"       -> OnHeal(e)
+    [] e.ev \in {"panic", "hang"} -> OnPanic(e)
     [] OTHER               -> [g2 |-> g, v |-> {}]
 
 Init == l = 1 /\ g = G0 /\ viol = {}
